@@ -140,7 +140,16 @@ pub fn install_panic_hook() {
 fn short_file(loc: &str) -> String {
     // "/repo/debian-control/src/lossless/relations.rs:123" -> "debian-control/src/lossless/relations.rs"
     let file = loc.rsplit_once(':').map(|x| x.0).unwrap_or(loc);
-    let file = file.strip_prefix("/repo/").unwrap_or(file);
+    let mut file = file.strip_prefix("/repo/").unwrap_or(file);
+    // a scratch copy of the repository (experiment mode): cut at the crate directory
+    if file.starts_with('/') && !file.contains("/registry/src/") && !file.contains("/library/") {
+        for marker in ["/debian-control/", "/debian-copyright/", "/dep3/", "/apt-sources/", "/deb822-derive/", "/src/"] {
+            if let Some(i) = file.find(marker) {
+                file = &file[i + 1..];
+                break;
+            }
+        }
+    }
     if let Some(i) = file.find("/registry/src/") {
         let rest = &file[i + 14..];
         return rest.split_once('/').map(|x| x.1.to_string()).unwrap_or(rest.to_string());
